@@ -810,7 +810,7 @@ func (e *Exec) concInt(v Value) int {
 
 // concretize enumerates the feasible values of t, forking per value (bounded).
 func (e *Exec) concretize(t *Term) uint64 {
-	for iter := 0; iter < 32; iter++ {
+	for iter := 0; iter < 300; iter++ {
 		pos := len(e.taken)
 		if pos+1 < len(e.prefix) {
 			flag, v := e.prefix[pos], uint64(e.prefix[pos+1])
@@ -837,7 +837,7 @@ func (e *Exec) concretize(t *Term) uint64 {
 		e.pc = append(e.pc, c)
 		return v
 	}
-	panic(unsupported{"concretize: more than 32 values"})
+	panic(unsupported{"concretize: more than 300 values"})
 }
 
 // concValue makes an integer value concrete where a map key / string conversion needs it.
